@@ -42,7 +42,7 @@ def rule_module(prop):
         raise
 
 
-def evaluate(prop, repo, tier='quick'):
+def evaluate(prop, repo, tier='quick', borrow=True):
     """Run the property's rules against a Repo; returns the Ctx (violations not yet triaged)."""
     mod = rule_module(prop)
     ctx = report.Ctx(prop, repo, tier)
@@ -57,7 +57,7 @@ def evaluate(prop, repo, tier='quick'):
     ctx.own_functions = dict(ctx.functions)
     # Rules of helper functions on this property's code path are owned by another property's module; they are evaluated here
     # too (under their own rule ids), so that a change in a helper is reported by every property that depends on it.
-    for owner, only in BORROWS.get(prop, []):
+    for owner, only in (BORROWS.get(prop, []) if borrow else []):
         omod = rule_module(owner)
         sub = report.Ctx(prop, repo, tier)
         try:
